@@ -296,10 +296,11 @@ def Val.toEV : Val → EV
   | .anys xs => .seq false 4 (anysCap xs.length) (xs.map Val.anyElem)
   | .opv o => opEV o
 
-/-- `nodeConfig.kind()` -/
+/-- what `stack.isEqual` compares of the two kinds: the stack type, named here by its (unfolded) kind word. After
+repair F41 the comparison no longer goes through `kind()`, whose text depends on the case-folding option. -/
 def Cfg.kindStr (c : Cfg) : Text :=
   if c.kind ∈ [Gen.kind_and, Gen.kind_or, Gen.kind_not, Gen.kind_list, Gen.kind_cond, Gen.kind_basic] then
-    foldValue (c.kind != 0 && Gen.cfgFlag_positive c.opt Gen.flag_cfold) (Gen.kindWord c.kind)
+    Gen.kindWord c.kind
   else "null".toList
 
 /-! `Op.text` / `Op.ctx` (`Operator.String()` / `.Context()`) are defined in `Model/Render.lean`. -/
